@@ -256,13 +256,14 @@ pub fn entry(x: &str) -> Option<Cell> {
 /// read; the drawing of the table is free:
 ///  * a line made of line-drawing characters only is a rule and is skipped wherever it stands;
 ///  * a table line starts with a column separator (`|` or a box-drawing bar); its cells are trimmed;
-///    the last column is the result column, whatever its title;
+///    the result column is the one titled `*` wherever it stands (otherwise the last one);
 ///  * a `-v` line ends with `;` and lists names separated by commas, `*` marking "either value";
 ///  * the lines before the table are the exported variable order, read the way `-o` reads an
 ///    ordering file: the identifiers of the text in order of appearance.
 pub fn parse_stdout(out: &str) -> Result<Printed, String> {
     let mut p = Printed::default();
     let mut ordering_text = String::new();
+    let mut result_col = 0usize;
     for line in out.lines() {
         let t = line.trim();
         if t.is_empty() {
@@ -278,22 +279,27 @@ pub fn parse_stdout(out: &str) -> Result<Printed, String> {
                 if h.len() < 1 {
                     return Err(format!("table header without columns: {:?}", line));
                 }
-                h.pop();
+                // the result column: the one titled `*` (not a legal variable name) wherever it
+                // stands; without such a title, the last column
+                let stars: Vec<usize> = h.iter().enumerate().filter(|(_, c)| c.as_str() == "*").map(|x| x.0).collect();
+                result_col = if stars.len() == 1 { stars[0] } else { h.len() - 1 };
+                h.remove(result_col);
                 p.header = Some(h);
             } else {
-                let c = cells(line);
+                let mut c = cells(line);
                 let n = p.header.as_ref().map(|h| h.len()).unwrap_or(0);
                 if c.len() != n + 1 {
                     return Err(format!("row has {} cells, header has {}: {:?}", c.len(), n + 1, line));
                 }
+                let rc = c.remove(result_col);
                 let mut vals = Vec::new();
-                for x in &c[..n] {
+                for x in &c {
                     vals.push(entry(x).ok_or_else(|| format!("unexpected cell {:?} in row {:?}", x, line))?);
                 }
-                let res = match entry(&c[n]) {
+                let res = match entry(&rc) {
                     Some(Cell::True) => true,
                     Some(Cell::False) => false,
-                    _ => return Err(format!("unexpected result cell {:?}", c[n])),
+                    _ => return Err(format!("unexpected result cell {:?}", rc)),
                 };
                 p.rows.push((vals, res));
             }
